@@ -23,7 +23,7 @@
 //
 // History tokens (global order of the engine's log, see ocaml/C05/main.ml):
 //
-//	X cancel; <p>.pre.<ok|gun|warm|sched>; <p>.P.<e>.<s|u>; <p>.A.<e>.<s|u>; <p>.S.<n>.<e>.<s|u>;
+//	X0 / X1 the caller's cancel() is about to be called / has returned; <p>.pre.<ok|gun|warm|sched>; <p>.P.<e>.<s|u>; <p>.A.<e>.<s|u>; <p>.S.<n>.<e>.<s|u>;
 //	<p>.R.<id>.<e>.<s|u>; <p>.sf; <p>.fc; <p>.fz; E.<p>; E.c; E.ret
 //	<e> = nil|ctx|ooa|f.<cause>; s = error sent to Run, u = "Error suppressed after run cancel".
 package main
@@ -219,8 +219,9 @@ func (g *mockGun) Shoot(core.Ammo) {
 	c := int(g.pm.shoots.Add(1))
 	rs := g.pm.rs
 	if g.pm.idx == 0 && rs.cancelAt > 0 && c == rs.cancelAt {
-		rs.log.Info("verif-cancel")
+		rs.log.Info("verif-cancel-begin")
 		rs.cancel()
+		rs.log.Info("verif-cancel-end")
 		<-rs.release
 	}
 	if g.pm.plan.fault == "panic" && c == g.pm.plan.k {
@@ -349,33 +350,47 @@ func history(all []observer.LoggedEntry, npools int, plans []poolPlan) []string 
 			out = append(out, fmt.Sprintf("%d.pre.ok", p))
 		}
 	}
+	// a result whose error ends up suppressed is placed where the select of onErrAwaited fired
+	// (the "Error suppressed" entry), not where the result was received: the choice is made there
+	held := map[int]string{}
+	cancels := 0
 	for i, e := range all {
 		p := poolIdx(e)
-		ch := func() string {
+		emit := func(tok string) {
+			pre(p)
 			if suppressedAfter(i, p) {
-				return "u"
+				held[p] = tok + ".u"
+				return
 			}
-			return "s"
+			out = append(out, tok+".s")
 		}
 		switch e.Message {
-		case "verif-cancel":
-			out = append(out, "X")
+		case "verif-cancel-begin":
+			if cancels == 0 {
+				out = append(out, "X0")
+			}
+		case "verif-cancel-end":
+			if cancels == 0 {
+				out = append(out, "X1")
+			}
+			cancels++
 		case "verif-pre-fail":
 			pp := fieldInt(e, "p")
 			preDone[pp] = true
 			out = append(out, fmt.Sprintf("%d.pre.%s", pp, fieldStr(e, "what")))
 		case "AmmoQueue awaited":
-			pre(p)
-			out = append(out, fmt.Sprintf("%d.P.%s.%s", p, classify(fieldErr(e)), ch()))
+			emit(fmt.Sprintf("%d.P.%s", p, classify(fieldErr(e))))
 		case "Aggregator awaited":
-			pre(p)
-			out = append(out, fmt.Sprintf("%d.A.%s.%s", p, classify(fieldErr(e)), ch()))
+			emit(fmt.Sprintf("%d.A.%s", p, classify(fieldErr(e))))
 		case "Instances start awaited":
-			pre(p)
-			out = append(out, fmt.Sprintf("%d.S.%d.%s.%s", p, fieldInt(e, "started"), classify(fieldErr(e)), ch()))
+			emit(fmt.Sprintf("%d.S.%d.%s", p, fieldInt(e, "started"), classify(fieldErr(e))))
 		case "Instance run awaited":
-			pre(p)
-			out = append(out, fmt.Sprintf("%d.R.%d.%s.%s", p, fieldInt(e, "id"), classify(fieldErr(e)), ch()))
+			emit(fmt.Sprintf("%d.R.%d.%s", p, fieldInt(e, "id"), classify(fieldErr(e))))
+		case "Error suppressed after run cancel":
+			if tok, ok := held[p]; ok {
+				out = append(out, tok)
+				delete(held, p)
+			}
 		case "RPS schedule has been finished. Canceling instance start.":
 			pre(p)
 			out = append(out, fmt.Sprintf("%d.sf", p))
@@ -455,15 +470,17 @@ func runCase(line string) string {
 	eng := engine.New(log, metrics, conf)
 
 	if cancelPlan == "pre" {
-		log.Info("verif-cancel")
+		log.Info("verif-cancel-begin")
 		cancel()
+		log.Info("verif-cancel-end")
 	}
 	if strings.HasPrefix(cancelPlan, "timed") {
 		us, _ := strconv.Atoi(cancelPlan[5:])
 		go func() {
 			time.Sleep(time.Duration(us) * time.Microsecond)
-			log.Info("verif-cancel")
+			log.Info("verif-cancel-begin")
 			cancel()
+			log.Info("verif-cancel-end")
 		}()
 	}
 	runErr := make(chan error, 1)
@@ -474,8 +491,9 @@ func runCase(line string) string {
 		res = classify(err)
 	case <-time.After(5 * time.Second):
 		res = "hang"
-		log.Info("verif-cancel")
+		log.Info("verif-cancel-begin")
 		cancel()
+		log.Info("verif-cancel-end")
 	}
 	if cancelPlan == "after" {
 		cancel()
